@@ -160,6 +160,31 @@ PROPS = {
         "level_note": "Trusted: harness/oracle FEN codec (self-tested round-trips) and game clock rules.",
         "technique": "property-based testing (rapid): round-trip oracle on generated positions, model-based oracle on Reset/Move/TakeBack programs",
     },
+    "C06": {
+        "title": "attack relation and derived queries",
+        "run": "^TestC06_",
+        "level": "exploration",
+        "exhaustive": False,
+        "shards": 16,
+        "timeout": 420,
+        "thorough_scale": 12,
+        "rule": "C06/table (exhaustive, every run): for each of the 64 squares EVERY occupancy of the squares on its rank+file (2^14) "
+                "for rooks and on its two diagonals (<= 2^13) for bishops, each looked up through NewRotatedBitboard with the square "
+                "itself empty and occupied, and again with deterministic clutter off the lines (must not matter); queens on a quarter "
+                "of those with on-line clutter; kings and knights on all squares; Attackboard dispatch must agree. Expected value = "
+                "ray walk stopping at and including the first occupied square. C06/pawns: PawnCaptureboard for every single pawn and "
+                "20k random pawn sets, both colours. C06/derived: generated game / synthetic positions: IsAttacked and IsDefended for "
+                "64 squares x 2 colours, IsChecked, IsCheckMate, eval.FindCapture for every square and side (set of attackers with "
+                "kind and colour), eval.FindPins against king and queen (set of attacker/pinned/target triples) vs their geometric "
+                "definitions. Non-trivial: every (piece, square, line occupancy) of the table part is a distinct case by construction; "
+                "derived = distinct positions with a check, a pin or a multiply-attacked square.",
+        "assumptions": COMMON_ASSUMPTIONS + ["pins are judged for targets king and queen (the kinds the property names)"],
+        "level_text": "The finite table part is enumerated completely on every run (about 1.6M distinct line occupancies, ~6M "
+                      "lookups, seconds); the derived queries are explored on ~16k generated positions per quick run against "
+                      "definitions written as ray walks on the mailbox.",
+        "level_note": "Trusted: the ray walk in c06_test.go / harness/oracle. Sub-check C06/table reports exhaustive=true; the property as a whole stays 'exploration' because the derived queries range over all positions.",
+        "technique": "exhaustive enumeration of line occupancies + property-based testing (rapid) of derived queries against geometric definitions",
+    },
 }
 
 # Properties not claimed, with the reason (kept current).
